@@ -236,6 +236,15 @@ Definition cond_vars (hints : list (string * list string)) (h : heap) (o : obj) 
   filter (fun k => match read_var o k with VNone => true | _ => false end) mv
   ++ fold_left (fun acc k => match callable_args h (read_var o k) with Some a => dedup_app acc a | None => acc end) mv [].
 
+(* RegularizedGaussian defers get_conditioning_variables / get_mutable_variables to its inner Gaussian *)
+Definition cond_vars' (hints : list (string * list string)) (h : heap) (o : obj) : list string :=
+  if str_eqb (class_of o) "RegularizedGaussian" then
+    match getf o "_gaussian" with
+    | Some (VRef g) => match get h g with Some og => cond_vars hints h og | None => [] end
+    | _ => []
+    end
+  else cond_vars hints h o.
+
 (* which fields a property setter writes; `concrete` = value is neither None nor callable *)
 Definition setter_fields (cls key : string) (concrete : bool) : list string :=
   if str_eqb cls "Gaussian" then
@@ -250,46 +259,6 @@ Definition setter_fields (cls key : string) (concrete : bool) : list string :=
 
 Definition is_concrete (h : heap) (v : value) : bool :=
   match v with VNone => false | _ => match callable_args h v with Some _ => false | None => true end end.
-
-(* setattr(new, key, v): plain attribute, or property setter writing backing + derived fields *)
-Definition py_setattr (h : heap) (n : loc) (key : string) (v : value) : heap :=
-  match get h n with
-  | None => h
-  | Some o =>
-    match getf o key with
-    | Some _ => setattr h n key v
-    | None =>
-      let fs := setter_fields (class_of o) key (is_concrete h v) in
-      match fs with
-      | [] => h
-      | f0 :: rest =>
-        (* first field: the value itself when it is stored as given (reference or callable), else a converted copy *)
-        let v0 := match v with VRef _ | VClo _ _ | VNone => v | _ => wild end in
-        let h1 := setattr h n f0 v0 in
-        fold_left (fun hh f => setattr hh n f (if str_eqb f "_cov" then (if str_eqb key "cov" then v0 else VNone) else wild)) rest h1
-      end
-    end
-  end.
-
-Definition kw_filter (kw : list (string * value)) (names : list string) : list (string * value) :=
-  filter (fun p => mem_str (fst p) names) kw.
-
-Fixpoint remove_strs (l rm : list string) : list string :=
-  match l with [] => [] | x :: r => if mem_str x rm then remove_strs r rm else x :: remove_strs r rm end.
-
-(* Distribution.to_likelihood on a given (new) distribution *)
-Definition to_likelihood (hints : list (string * list string)) (h : heap) (d : loc) (data : value) (name : option string) : heap * loc :=
-  match get h d with
-  | None => (h, d)
-  | Some o =>
-    match cond_vars hints h o with
-    | [] => alloc h [("__class__", VStr "EvaluatedDensity"); ("_FD_enabled", VNum 0); ("_FD_epsilon", VNone);
-                     ("_constant", VNum 0);
-                     ("_name", match name with Some s => VStr s | None => VNone end);
-                     ("_original_density", VNone); ("value", wild)]
-    | _ => alloc h [("__class__", VStr "Likelihood"); ("data", data); ("distribution", VRef d)]
-    end
-  end.
 
 Definition default_geom_at (h : heap) (g : loc) : bool := String.prefix "_DefaultGeometry" (class_at h g).
 Definition unset_geom_at (h : heap) (g : loc) : bool :=
@@ -321,6 +290,51 @@ Definition geometry_getter (h : heap) (l : loc) (dim : option value) : heap :=
   end.
 
 
+
+(* setattr(new, key, v): plain attribute, or property setter writing backing + derived fields *)
+Definition py_setattr (h : heap) (n : loc) (key : string) (v : value) : heap :=
+  match get h n with
+  | None => h
+  | Some o =>
+    match getf o key with
+    | Some _ => setattr h n key v
+    | None =>
+      let fs := setter_fields (class_of o) key (is_concrete h v) in
+      match fs with
+      | [] => h
+      | f0 :: rest =>
+        (* first field: the value itself when it is stored as given (reference or callable), else a converted copy *)
+        let v0 := match v with VRef _ | VClo _ _ | VNone => v | _ => wild end in
+        let h1 := setattr h n f0 v0 in
+        let h2 := fold_left (fun hh f => setattr hh n f (if str_eqb f "_cov" then (if str_eqb key "cov" then v0 else VNone) else wild)) rest h1 in
+        (* the matrix setters of a Gaussian read self.dim when the value is concrete: geometry getter on the object itself
+           (lazy default geometry if it is still unset -- e.g. the inner Gaussian of a RegularizedGaussian --, name synchronisation) *)
+        if str_eqb (class_of o) "Gaussian" && negb (str_eqb key "mean") && is_concrete h v
+        then geometry_getter h2 n (Some wild) else h2
+      end
+    end
+  end.
+
+Definition kw_filter (kw : list (string * value)) (names : list string) : list (string * value) :=
+  filter (fun p => mem_str (fst p) names) kw.
+
+Fixpoint remove_strs (l rm : list string) : list string :=
+  match l with [] => [] | x :: r => if mem_str x rm then remove_strs r rm else x :: remove_strs r rm end.
+
+(* Distribution.to_likelihood on a given (new) distribution *)
+Definition to_likelihood (hints : list (string * list string)) (h : heap) (d : loc) (data : value) (name : option string) : heap * loc :=
+  match get h d with
+  | None => (h, d)
+  | Some o =>
+    match cond_vars' hints h o with
+    | [] => alloc h [("__class__", VStr "EvaluatedDensity"); ("_FD_enabled", VNum 0); ("_FD_epsilon", VNone);
+                     ("_constant", VNum 0);
+                     ("_name", match name with Some s => VStr s | None => VNone end);
+                     ("_original_density", VNone); ("value", wild)]
+    | _ => alloc h [("__class__", VStr "Likelihood"); ("data", data); ("distribution", VRef d)]
+    end
+  end.
+
 Section Cond.
 Variable hints : list (string * list string).
 Variable inplace : bool.          (* the code contains `density._constant += ...` (augmented assignment) *)
@@ -337,7 +351,7 @@ Fixpoint param_names (fuel : nat) (h : heap) (l : loc) : list string :=
       if str_eqb c "EvaluatedDensity" then []
       else if str_eqb c "Likelihood" then
         match getf o "distribution" with
-        | Some (VRef d) => match get h d with Some od => cond_vars hints h od | None => [] end
+        | Some (VRef d) => match get h d with Some od => cond_vars' hints h od | None => [] end
         | _ => [] end
       else if is_joint_class c then
         match getf o "_densities" with
@@ -347,7 +361,7 @@ Fixpoint param_names (fuel : nat) (h : heap) (l : loc) : list string :=
         | _ => [] end
       else if str_eqb c "Posterior" then
         match getf o "prior" with Some (VRef p) => param_names k h p | _ => [] end
-      else cond_vars hints h o ++ match name_of 50 h l with Some s => [s] | None => ["?"] end
+      else cond_vars' hints h o ++ match name_of 50 h l with Some s => [s] | None => ["?"] end
     end
   end.
 
@@ -456,12 +470,16 @@ Definition reduce (h : heap) (nj : loc) (rs : list loc) : option (heap * loc) :=
       else
         (* Posterior.geometry setter: reads prior.geometry (getter: lazy default + name), then takes the model's domain
            geometry if it is not a default one, else the prior's *)
-        let hq := geometry_getter h d (Some wild) in
+        (* a RegularizedGaussian prior keeps its geometry in its inner Gaussian (set at construction: name synchronisation only) *)
+        let inner := if str_eqb (class_at h d) "RegularizedGaussian"
+                     then match getattr h d "_gaussian" with Some (VRef g) => Some g | _ => None end else None in
+        let hq := match inner with Some g => geometry_getter h g None | None => geometry_getter h d (Some wild) end in
+        let gown := match inner with Some g => g | None => d end in
         let geom := match lik_domain_geometry hq lk with
                     | Some gd => if default_geom_at hq gd
-                                 then match getattr hq d "_geometry" with Some v => v | None => VNone end
+                                 then match getattr hq gown "_geometry" with Some v => v | None => VNone end
                                  else VRef gd
-                    | None => match getattr hq d "_geometry" with Some v => v | None => VNone end
+                    | None => match getattr hq gown "_geometry" with Some v => v | None => VNone end
                     end in
         let '(h1, p) := alloc hq [("__class__", VStr "Posterior"); ("_FD_enabled", VNum 0); ("_FD_epsilon", VNone);
                                  ("_constant", VNum 0); ("_geometry", geom);
@@ -503,7 +521,7 @@ Fixpoint cond (fuel : nat) (h : heap) (self : loc) (kw : list (string * value)) 
             let h3 := setattr h2 nl "distribution" (VRef nd) in
             match get h3 nd with
             | Some ond =>
-              match cond_vars hints h3 ond with
+              match cond_vars' hints h3 ond with
               | [] => Some (to_likelihood hints h3 nd (match getf o "data" with Some v => v | None => VNone end) (name_of 50 h3 nd))
               | _ => Some (h3, nl)
               end
@@ -523,6 +541,28 @@ Fixpoint cond (fuel : nat) (h : heap) (self : loc) (kw : list (string * value)) 
           | None => None
           end
         | _ => None
+        end
+      else if str_eqb c "RegularizedGaussian" then
+        (* RegularizedGaussian._condition: copy; the inner Gaussian is conditioned on everything but the own name; if the own
+           name is given the copy is turned into a likelihood / evaluated density.  The `gaussian` getter writes the outer name
+           into the inner Gaussian: modelled on heaps where it already has that name (all heaps built with explicit names);
+           otherwise outside the model (refused) *)
+        match getf o "_gaussian", name_of 50 h self with
+        | Some (VRef g), Some nm =>
+          if negb (match getattr h g "_name" with Some (VStr s) => str_eqb s nm | _ => false end) then None
+          else if mem_str "_main_parameter" (keys kw) then None
+          else
+          let '(h1, n) := make_copy h self in
+          match cond k h1 g (filter (fun p => negb (str_eqb (fst p) nm)) kw) with
+          | Some (h2, ng) =>
+            let h3 := setattr h2 n "_gaussian" (VRef ng) in
+            match lookup kw nm with
+            | Some v => Some (to_likelihood hints h3 n v (Some nm))
+            | None => Some (h3, n)
+            end
+          | None => None
+          end
+        | _, _ => None
         end
       else
         (* Distribution._condition *)
@@ -595,6 +635,8 @@ Definition vmatch (m o : value) : bool :=
   match m, o with
   | VTok (-1), VRef _ => false
   | VTok (-1), VList _ => false
+  | VTok (-1), VNone => false          (* a computed value is a concrete datum: never None, never a callable *)
+  | VTok (-1), VClo _ _ => false
   | VTok (-1), _ => true
   | VArr i (-1), VArr j _ => Z.eqb i j
   | VClo a (-1), VClo b _ => strs_eqb a b
